@@ -16,7 +16,11 @@ def hostile(args):
     import impl
     rnd = random.Random(seed)
     blocklist = kw.get("blocklist", ())
-    w = SW.ServerWorld(seed=seed, conn_timeout=3.0, blocklist=blocklist, mtu=kw.get("mtu"), handler_raise=0.0, echo_deadline=0.6)
+    late = kw.get("late_blocklist", False)
+    w = SW.ServerWorld(seed=seed, conn_timeout=3.0, blocklist=() if late else blocklist, mtu=kw.get("mtu"), handler_raise=0.0, echo_deadline=0.6)
+    if late:
+        # the application configures the block list AFTER it built the server object (the documentation only asks for "before run()"), and replaces it later
+        w.ctxt.setBlockList({blocklist[0]})
     crc32 = impl.mod("crypto").crc32
     C = w.C
     try:
@@ -29,6 +33,8 @@ def hostile(args):
         recsize = C.Packet.RECV_SIZE
         lengths = list(range(0, 64)) + [recsize - 1, recsize, recsize + 1, 1472, 1473, 2048, 4096]
         for t in range(nticks):
+            if late and t == nticks // 2:
+                w.ctxt.setBlockList(set(blocklist))
             # canary requests once the clients are connected
             for cid in (1, 2):
                 if w.clients[cid]["cl"].connected() and t % 7 == cid:
@@ -94,7 +100,8 @@ def run(ctx):
     q = ctx.quick
     from concurrent.futures import ProcessPoolExecutor
     jobs = []
-    for i, kw in enumerate([dict(), dict(blocklist=("9.9.9.9",)), dict(mtu=512), dict(blocklist=("9.9.9.9", "6.6.6.6"), mtu=1000), dict(rate=40)] * (1 if q else 6)):
+    for i, kw in enumerate([dict(), dict(blocklist=("9.9.9.9",)), dict(mtu=512), dict(blocklist=("9.9.9.9", "6.6.6.6"), mtu=1000), dict(rate=40),
+                               dict(blocklist=("9.9.9.9", "6.6.6.6"), late_blocklist=True)] * (1 if q else 6)):
         jobs.append((ctx.seed * 10 + i, 500 if q else 1500, kw))
     with ProcessPoolExecutor(min(16, len(jobs))) as ex:
         traces = list(ex.map(hostile, jobs))
